@@ -39,6 +39,10 @@ func init() {
 
 func runC10(c *core.Ctx) {
 	mvf := mvPkg + ".(*messageValidator)."
+	// the per-signer state an honest sender is judged against is read and written under one
+	// per-message-id lock (without it an in-flight proposal is recorded into the next round's state and
+	// the honest decided message of that round is rejected as an equivocation)
+	checkValidationLocks(c, "C10-R3")
 	// ---------------- R5: the duty stores that validation consults (proposer: "no duty" is
 	// reject-class; sync committee) are expired by their handlers only for a scope that is over:
 	// wiping the CURRENT epoch / period on a tick makes every in-window message of a correct
